@@ -24,9 +24,11 @@ R(by, how, v) == [by |-> by, how |-> how, v |-> v, vs |-> << >>]
 Call(m, atoms) == [m |-> m, a |-> atoms]
 ChainDef ==
   [c \in {"C1", "C2", "C3", "C4"} |->
-     CASE c = "C1" -> << Call("apply_to", {V("method", <<"G","E","T">>)}) >>
-       [] c = "C2" -> << Call("skip_for", {V("tag", <<"y">>)}) >>
-       [] c = "C3" -> << Call("apply_to", {V("path", PB)}), Call("skip_for", {V("method", <<"g","e","t">>)}) >>
+     CASE c = "C1" -> << Call("apply_to", {V("method", <<"G","E","T">>)}), Call("apply_to", {V("operation_id", <<"p","a">>)}) >>
+       [] c = "C2" -> << Call("skip_for", {[by |-> "tag", how |-> "func", v |-> <<"y">>, vs |-> << >>]}) >>   \* custom function: has tag y
+       [] c = "C3" -> << Call("apply_to", {R("path", "prefix", PB)}),
+                         Call("skip_for", {L("method", << <<"g","e","t">>, <<"P","U","T">> >>)}),
+                         Call("skip_for", {V("tag", <<"x">>)}) >>
        [] OTHER    -> << Call("skip_for", {V("name", <<"P","O","S","T"," ","/","a">>)}),
                          Call("apply_to", {L("method", << <<"p","o","s","t">>, <<"D","E","L","E","T","E">> >>), R("path", "prefix", PA)}),
                          Call("apply_to", {V("tag", <<"y">>), R("operation_id", "exact", <<"g","b">>)}),
